@@ -292,6 +292,15 @@ pub struct P {
     p1: u16,
     u: Tok,
 }
+/// packed(2): the struct's own alignment is 2 (not 1), its token fields sit at offsets 6 and 16
+#[repr(C, packed(2))]
+pub struct P2 {
+    a: u32,
+    tag: u16,
+    t: Tok,
+    n: u16,
+    u: Tok,
+}
 pub struct Z {
     a: Tok,
     unit: (),
@@ -447,11 +456,17 @@ pub fn destructure_shape(shape: u8, toks: Vec<Tok>) -> Vec<Tok> {
             konst::destructure! {T3(a, _, c) = v}
             vec![a, c]
         }
-        _ => {
+        25 => {
             let v = [nx(), nx()];
             konst::destructure! {[a, rest @ .., z] = v}
             let _rest: [Tok; 0] = rest;
             vec![a, z]
+        }
+        _ => {
+            let v = P2 { a: 0xDEAD_BEEF, tag: 0x1234, t: nx(), n: 0x5678, u: nx() };
+            konst::destructure! {P2 {a, tag, t, n, u} = v}
+            assert!(a == 0xDEAD_BEEF && tag == 0x1234 && n == 0x5678, "packed(2) scalar fields changed");
+            vec![t, u]
         }
     }
 }
